@@ -400,7 +400,14 @@ pub fn download(srv: &Srv, name: &[u8], opts: &[(String, String)]) -> Dl {
 /// acknowledged window size — a datagram found then was emitted before our ACK (no false alarm is possible;
 /// the grace period only makes detection more likely).
 pub fn download_ex(srv: &Srv, name: &[u8], opts: &[(String, String)], pre_ack_grace: Option<Duration>) -> Dl {
+    download_mode(srv, name, opts, pre_ack_grace, 0)
+}
+
+/// ack_mode: 0 = one ACK per window; 1 = every ACK sent twice (duplicate ACKs); 2 = the previous ACK is repeated
+/// (stale) just before each new one
+pub fn download_mode(srv: &Srv, name: &[u8], opts: &[(String, String)], pre_ack_grace: Option<Duration>, ack_mode: u8) -> Dl {
     let mut c = Client::new(srv.addr);
+    let mut prev_ack: Option<u16> = None;
     let mut r = Dl::default();
     c.to_server(&rc::request(false, name, opts));
     let mut blk = 512usize;
@@ -456,7 +463,16 @@ pub fn download_ex(srv: &Srv, name: &[u8], opts: &[(String, String)], pre_ack_gr
                                 r.window_exceeded = true;
                             }
                         }
+                        if ack_mode == 2 {
+                            if let Some(p) = prev_ack {
+                                c.to_peer(&rc::ack(p));
+                            }
+                        }
                         c.to_peer(&rc::ack(block));
+                        if ack_mode == 1 && !last {
+                            c.to_peer(&rc::ack(block));
+                        }
+                        prev_ack = Some(block);
                         if last {
                             r.completed = true;
                             break;
@@ -597,6 +613,121 @@ pub fn upload(srv: &Srv, name: &[u8], opts: &[(String, String)], payload: &[u8])
     while let Some((b, _)) = c.try_recv() {
         r.anomalies.push(format!("datagram after the end: {}", rc::describe(&b)));
     }
+    r.sources = c.sources.clone();
+    r
+}
+
+/// Upload with client-side faults. mode 1: every DATA datagram is sent twice; mode 2: the first transmission of every
+/// window goes out in reverse order. The client is a conformant RFC 7440 sender: in-window cumulative ACKs advance it,
+/// duplicate/stale ACKs are ignored, and when the server stays quiet it retransmits the window in order.
+pub fn upload_faulty(srv: &Srv, name: &[u8], opts: &[(String, String)], payload: &[u8], mode: u8) -> Ul {
+    let mut c = Client::new(srv.addr);
+    let mut r = Ul::default();
+    c.to_server(&rc::request(true, name, opts));
+    let Some((b, _)) = reply_or_quiet(srv, &mut c) else {
+        r.first = "none".into();
+        quiesce();
+        return r;
+    };
+    r.first = rc::describe(&b);
+    let mut blk = 512usize;
+    let mut ws = 1u64;
+    match rc::decode(&b) {
+        Ok(RPacket::Oack(o)) => {
+            let o = parse_opts(&o);
+            if let Some(v) = opt_val(&o, "blksize") {
+                blk = (v as usize).max(1);
+            }
+            if let Some(v) = opt_val(&o, "windowsize") {
+                ws = v.max(1);
+            }
+            r.oack = Some(o);
+        }
+        Ok(RPacket::Ack(0)) => {}
+        Ok(RPacket::Error { code, msg }) => {
+            r.error = Some((code, String::from_utf8_lossy(&msg).to_string()));
+            quiesce();
+            return r;
+        }
+        _ => {
+            c.to_peer(&rc::error(0, "unexpected"));
+            quiesce();
+            return r;
+        }
+    }
+    let nfinal = (payload.len() / blk) as u64 + 1;
+    let block = |k: u64| -> Vec<u8> {
+        let s = (k - 1) as usize * blk;
+        let e = (s + blk).min(payload.len());
+        rc::data((k % 65536) as u16, &payload[s..e])
+    };
+    let mut base: u64 = 1;
+    let mut rounds = 0;
+    'outer: while base <= nfinal {
+        let hi = (base + ws - 1).min(nfinal);
+        let mut order: Vec<u64> = (base..=hi).collect();
+        if mode == 2 {
+            order.reverse();
+        }
+        let mut first_tx = true;
+        loop {
+            rounds += 1;
+            if rounds > 4 * nfinal + 50 {
+                r.anomalies.push("too many rounds".into());
+                break 'outer;
+            }
+            for k in if first_tx { order.clone() } else { (base..=hi).collect() } {
+                c.to_peer(&block(k));
+                if mode == 1 {
+                    c.to_peer(&block(k));
+                }
+            }
+            first_tx = false;
+            // collect replies until the server is quiet for a moment
+            let mut advanced = false;
+            while let Some((b, _)) = c.recv_wait(Duration::from_millis(6)) {
+                match rc::decode(&b) {
+                    Ok(RPacket::Ack(k)) => {
+                        r.acks.push(k);
+                        // in-window cumulative ACK?
+                        let ka = {
+                            let mut x = None;
+                            for cand in base..=hi {
+                                if (cand % 65536) as u16 == k {
+                                    x = Some(cand);
+                                }
+                            }
+                            x
+                        };
+                        if let Some(ka) = ka {
+                            base = ka + 1;
+                            advanced = true;
+                            if ka == nfinal {
+                                r.completed = true;
+                            }
+                            break;
+                        }
+                    }
+                    Ok(RPacket::Error { code, msg }) => {
+                        r.error = Some((code, String::from_utf8_lossy(&msg).to_string()));
+                        break 'outer;
+                    }
+                    _ => {}
+                }
+            }
+            if advanced {
+                break;
+            }
+            if !workers_alive() {
+                r.anomalies.push(format!("server gave up while blocks {base}..{hi} were outstanding"));
+                break 'outer;
+            }
+        }
+    }
+    if !r.completed {
+        c.to_peer(&rc::error(0, "abort"));
+    }
+    quiesce();
     r.sources = c.sources.clone();
     r
 }
